@@ -328,11 +328,38 @@ fn directed(idx: usize, rng: &mut Rng) -> Option<Spec> {
             s.user_pos.push(vec![NEW_POS[0].map(|x| x.to_string()), NEW_POS[2].map(|x| x.to_string())]);
             Some(s)
         }
+        8..=19 => {
+            // a dimension at the limit of the header's i16: 32767 x 1 and 1 x 32767 (every other dimension is cut off by
+            // the 2 GB a square matrix would need); ids n-1 / n / n+1 = 32766 / 32767 / 32768 meet the i16 / u16 casts
+            let j = k - 8;
+            let (nl, nr) = if j % 2 == 0 { (32767usize, 1usize) } else { (1, 32767) };
+            let big = 32767i64;
+            let v = [big - 1, big, big + 1][(j / 2) % 3];
+            let mut s = Spec { nl, nr, matrix: Matrix::random(rng, nl, nr, false), inh: vec![], provs: vec![], user_pos: vec![], tag: format!("directed:dim-i16-max:{}", j) };
+            let (l, r) = if nl > 1 { (v, 0) } else { (0, v) };
+            if j < 6 {
+                s.provs.push(Prov::Simple { pos: noun.clone(), l, r, c: 3, mode: UMode::Default });
+            } else {
+                // unk.def cannot even spell 32768; the inhibit pair is an (i16, i16)
+                let mut lines = base_unk(&noun);
+                lines.push(valid_line("KANJI", l, r, 5, &noun));
+                s.provs.push(Prov::Mecab { lines, mode: UMode::Default });
+                s.inh.push(vec![(l.min(32767), r.min(32767))]);
+            }
+            Some(s)
+        }
+        20..=22 => {
+            // ids around 255 / 256 on a 256 x 256 matrix (nothing in the id path is a u8)
+            let v = [254i64, 255, 256][k - 20];
+            let mut s = Spec { nl: 256, nr: 256, matrix: Matrix::random(rng, 256, 256, false), inh: vec![vec![(255, 255), (0, 255)]], provs: vec![], user_pos: vec![], tag: format!("directed:dim-256:{}", v) };
+            s.provs.push(Prov::Regex { pos: noun.clone(), l: v, r: 255, c: -3, mode: UMode::Default, alias: false });
+            Some(s)
+        }
         _ => None,
     }
 }
 
-pub const N_DIRECTED: usize = 4 * 4 * 3 * 9 + 36 + 8;
+pub const N_DIRECTED: usize = 4 * 4 * 3 * 9 + 36 + 8 + 12 + 3;
 
 fn random_spec(rng: &mut Rng) -> Spec {
     let square = rng.chance(7, 10);
@@ -423,7 +450,56 @@ fn node_tuple(n: &Node) -> String {
     format!("{}:{}:{}:{}", n.left_id(), n.right_id(), n.cost(), n.word_id().word())
 }
 
-struct Ctx { wd: Workdir, variant: String, variant2: String }
+struct Ctx { wd: Workdir, variant: String, variant2: String, yomi: std::cell::RefCell<std::collections::HashMap<String, usize>> }
+
+/// the band of `maxYomiganaLength` in which the size limit of the regex crate lies: inside it the limit of the
+/// case's own pattern is MEASURED (bisection on `regex::Regex::new` with the harness's own transcription of
+/// `IgnoreYomiganaPlugin::make_regex`), below it every bound compiles, above it none does
+const YOMI_BAND: (usize, usize) = (20_000, 40_000);
+
+/// `make_regex` of IgnoreYomiganaPlugin for CHAR_DEF (KANJI 4E00..9FFF; HIRAGANA 3041..309F, KATAKANA 30A1..30FF, not adjacent)
+fn yomi_pattern(lb: &[String], rb: &[String], n: usize) -> String {
+    let any = |v: &[String]| -> String {
+        let set: std::collections::BTreeSet<char> = v.iter().filter_map(|s| s.chars().next()).collect();
+        format!("[{}]", set.iter().map(|c| format!("\\u{{{:X}}}", *c as u32)).collect::<String>())
+    };
+    format!("[\\u{{4E00}}-\\u{{9FFF}}]({}[\\u{{3041}}-\\u{{309F}}\\u{{30A1}}-\\u{{30FF}}]{{1,{}}}{})", any(lb), n, any(rb))
+}
+
+/// largest n for which the regex crate compiles the pattern (cached per bracket sets)
+fn yomi_limit(ctx: &Ctx, lb: &[String], rb: &[String]) -> usize {
+    let key = format!("{:?}|{:?}", lb, rb);
+    if let Some(v) = ctx.yomi.borrow().get(&key) { return *v; }
+    let ok = |n: usize| regex::Regex::new(&yomi_pattern(lb, rb, n)).is_ok();
+    let (mut lo, mut hi) = YOMI_BAND;
+    if !ok(lo) { hi = lo; lo = 1; } else if ok(hi) { lo = hi; hi = 1 << 26; }
+    // invariant: ok(lo) (or lo = 1), !ok(hi)
+    while hi - lo > 1 { let mid = (lo + hi) / 2; if ok(mid) { lo = mid } else { hi = mid } }
+    ctx.yomi.borrow_mut().insert(key, lo);
+    lo
+}
+
+fn single_chars(v: &Jv) -> Option<Vec<String>> {
+    match v { Jv::Strs(x) if !x.is_empty() && x.iter().all(|s| s.chars().count() == 1) => Some(x.clone()), _ => None }
+}
+
+/// the `lim` of a yomigana item on the wire: measured when the bound lies in the band (and the bracket sets are usable)
+fn yomi_lim(ctx: &Ctx, run: &mut Run, lb: &Jv, rb: &Jv, ml: &Jv) -> usize {
+    let n = match ml.int_in(0, U64MAX) { Some(n) => n, None => return YOMI_BAND.0 };
+    if n <= YOMI_BAND.0 as i128 { return YOMI_BAND.0; }
+    if n > YOMI_BAND.1 as i128 { run.bump("yomigana:bound-above-band"); return YOMI_BAND.1; }
+    match (single_chars(lb), single_chars(rb)) {
+        (Some(l), Some(r)) => {
+            let lim = yomi_limit(ctx, &l, &r);
+            run.bump("yomigana:bound-in-band(limit-measured)");
+            run.bump(if (n as usize) < lim { "yomigana:band:below-limit" } else if n as usize == lim { "yomigana:band:at-limit" } else if n as usize == lim + 1 { "yomigana:band:limit+1" } else { "yomigana:band:above-limit" });
+            let lims = run.extra.entry("yomigana_limits".into()).or_insert_with(|| serde_json::json!({}));
+            lims.as_object_mut().unwrap().insert(format!("{}|{}", l.join(""), r.join("")), serde_json::json!(lim));
+            lim
+        }
+        _ => YOMI_BAND.0,
+    }
+}
 
 /// human-readable form of a configuration (for the evidence file)
 fn describe(spec: &Spec) -> String {
@@ -534,6 +610,7 @@ fn run_load(run: &mut Run, ctx: &Ctx, idx: usize, rng: &mut Rng, spec: &Spec) {
     let viol = violations(spec, &dict_pos);
     run.bump(&format!("tag:{}", spec.tag.split(':').take(2).collect::<Vec<_>>().join(":")));
     run.bump(if nl == nr { "matrix:square" } else { "matrix:non-square" });
+    run.bump(&format!("matrix:max-dim:{}", match nl.max(nr) { 1 => "1", 2..=6 => "2-6", 7..=255 => "7-255", 256..=32766 => "256-32766", _ => "32767" }));
     for p in &spec.provs {
         run.bump(match p { Prov::Simple { .. } => "provider:simple", Prov::Regex { .. } => "provider:regex", Prov::Mecab { .. } => "provider:mecab" });
     }
@@ -570,7 +647,7 @@ fn run_load(run: &mut Run, ctx: &Ctx, idx: usize, rng: &mut Rng, spec: &Spec) {
             run.bump("outcome:ok");
             // final POS list
             let pl = &dic.grammar().pos_list;
-            let newpos: Vec<String> = pl.iter().skip(dict_pos.len()).map(|p| hex_pos(p)).collect();
+            let newpos: Vec<String> = pl.iter().map(|p| hex_pos(p)).collect();
             // parameters attached by every provider, through the public trait
             let ib = catch(|| { let mut ib = InputBuffer::from(PROBE); ib.build(dic.grammar()).expect("build"); ib });
             let mut prov_out = vec![];
@@ -618,7 +695,7 @@ fn run_load(run: &mut Run, ctx: &Ctx, idx: usize, rng: &mut Rng, spec: &Spec) {
             let dump = catch(|| { let mut v = vec![]; for r in 0..nr { for l in 0..nl { v.push(cm.cost(l as u16, r as u16) as i64); } } v });
             let dims_ok = cm.num_left() == nl && cm.num_right() == nr;
             if let Ok(v) = &dump { cells = v.clone(); }
-            let ans = format!("ok npos={} new={} prov={} conn={}", pl.len(), newpos.join(";"), prov_out.join(";"), join(cells.iter(), ","));
+            let ans = format!("ok npos={} all={} prov={} conn={}", pl.len(), newpos.join(";"), prov_out.join(";"), join(cells.iter(), ","));
             run.case(idx, "load", &payload, &ans, nontrivial);
             note_example(run, idx, spec, &ans);
 
@@ -657,12 +734,67 @@ fn run_load(run: &mut Run, ctx: &Ctx, idx: usize, rng: &mut Rng, spec: &Spec) {
                     break;
                 }
             }
+            let upw: Vec<Vec<[String; 6]>> = user_pos_wire.iter().map(|u| u.iter().map(|p| { let mut a: [String; 6] = Default::default(); for (k, x) in p.iter().take(6).enumerate() { a[k] = x.clone(); } a }).collect()).collect();
+            pos_list_oracle(run, idx, pl, &dict_pos, &upw, &spec.tag);
+            let mut words: Vec<(u8, String, Vec<String>)> = rows.iter().map(|r| (0u8, r.surface.clone(), dict_pos[r.pos].to_vec())).collect();
+            for (u, plist) in spec.user_pos.iter().enumerate() { for (j, p) in plist.iter().enumerate() { words.push((u as u8 + 1, format!("ゆ{}{}", u, j), p.to_vec())); } }
+            word_pos_oracle(run, idx, &dic, &words, &spec.tag);
             // ---- oracle 4: analysis never indexes outside the matrix
             analysis_oracle(run, idx, rng, &dic, nl, nr, &viol, &spec.tag, &[]);
         }
     }
 }
 
+
+/// Oracle of "the dictionary's own POS ids never shift" (independent of the model): the loaded POS list starts with the
+/// dictionary's list, entry for entry; it ends with the POS lists of the user dictionaries in load order; what lies
+/// between (registered by plugins) has six components and repeats nothing that was already there
+fn pos_list_oracle(run: &mut Run, idx: usize, pl: &[Vec<String>], dict_pos: &[[String; 6]], user_pos: &[Vec<[String; 6]>], tag: &str) {
+    let head_ok = pl.len() >= dict_pos.len() && dict_pos.iter().enumerate().all(|(i, p)| pl[i] == p.to_vec());
+    if !head_ok {
+        let first_bad = (0..dict_pos.len()).find(|&i| pl.get(i).map(|x| x != &dict_pos[i].to_vec()).unwrap_or(true));
+        run.fail(idx, "c20:pos:dict-shifted", &format!("POS id {:?} of the dictionary denotes {:?} after the load, {:?} before [{}]", first_bad, first_bad.and_then(|i| pl.get(i)), first_bad.map(|i| dict_pos[i].to_vec()), tag));
+        return;
+    }
+    run.bump("pos-list:dictionary-part-unchanged");
+    let tail: Vec<Vec<String>> = user_pos.iter().flat_map(|u| u.iter().map(|p| p.to_vec())).collect();
+    if pl.len() < dict_pos.len() + tail.len() || pl[pl.len() - tail.len()..] != tail[..] {
+        run.fail(idx, "c20:pos:user-order", &format!("the POS list does not end with the POS of the user dictionaries in load order: {:?} [{}]", &pl[dict_pos.len()..], tag));
+        return;
+    }
+    let reg = &pl[dict_pos.len()..pl.len() - tail.len()];
+    if !reg.is_empty() { run.bump("pos-list:plugin-registered"); }
+    if !tail.is_empty() { run.bump("pos-list:user-dictionary-part"); }
+    for (i, p) in reg.iter().enumerate() {
+        if p.len() != 6 { run.fail(idx, "c20:pos:arity", &format!("registered POS {:?} has {} components [{}]", p, p.len(), tag)); return; }
+        if pl[..dict_pos.len() + i].contains(p) { run.fail(idx, "c20:pos:duplicate-registered", &format!("POS {} registered although already present [{}]", p.join(","), tag)); return; }
+    }
+}
+
+/// The same at the API: every word still reports the part of speech its row declared. `words` = (dictionary number,
+/// surface, declared POS); the id stored in the lexicon is resolved through the POS list AFTER the load
+fn word_pos_oracle(run: &mut Run, idx: usize, dic: &JapaneseDictionary, words: &[(u8, String, Vec<String>)], tag: &str) {
+    let pl = &dic.grammar().pos_list;
+    for (d, surf, want) in words {
+        let found = catch(|| {
+            dic.lexicon().lookup(surf.as_bytes(), 0).filter(|e| e.end == surf.len() && e.word_id.dic() == *d)
+                .map(|e| dic.lexicon().get_word_info(e.word_id).map(|wi| wi.pos_id() as usize).unwrap_or(usize::MAX)).collect::<Vec<_>>()
+        });
+        match found {
+            Ok(ids) if !ids.is_empty() => {
+                run.bump(if *d == 0 { "word-pos:system-word-checked" } else { "word-pos:user-word-checked" });
+                for id in ids {
+                    if pl.get(id) != Some(want) {
+                        run.fail(idx, "c20:pos:word-pos-shifted", &format!("word {:?} of dictionary {} declared {:?}, reports POS id {} = {:?} after the load [{}]", surf, d, want.join(","), id, pl.get(id), tag));
+                        return;
+                    }
+                }
+            }
+            Ok(_) => run.bump("word-pos:word-not-found"),
+            Err(p) => { run.fail(idx, "c20:pos:word-lookup-panics", &format!("lookup of {:?} panicked: {} [{}]", surf, p.chars().take(80).collect::<String>(), tag)); return; }
+        }
+    }
+}
 
 /// texts a long-lived analyser has seen before: longer and shorter than TEXTS, empty, rejected (too long)
 fn warm_texts(rng: &mut Rng) -> Vec<String> {
@@ -695,7 +827,8 @@ fn strip_rows(mut rows: Rows) -> Rows {
 /// analysed 1-4 other texts before (and keep being reused from text to text), the way long-lived analysers are
 /// used; the verdict must not depend on that history, and the recycled analysis must equal the fresh one.
 fn analysis_oracle(run: &mut Run, idx: usize, rng: &mut Rng, dic: &JapaneseDictionary, nl: usize, nr: usize, viol: &[Violation], tag: &str, extra: &[String]) {
-    let idv = viol.iter().find(|x| x.field == "leftId" || x.field == "rightId" || x.field == "maxLength");
+    // the id that explains a panic: a connection id first (D15a / D17 are listed findings), then a maxLength that cannot be added to an offset
+    let idv = viol.iter().find(|x| x.field == "leftId" || x.field == "rightId").or_else(|| viol.iter().find(|x| x.field == "maxLength"));
     let bad_ids = idv.is_some();
     if !cfg!(debug_assertions) && bad_ids {
         // release build: the read outside the matrix is undefined behaviour, it cannot be observed safely
@@ -869,6 +1002,13 @@ impl Jv {
         };
         format!(r#","{}":{}"#, key, v)
     }
+    /// the JSON text of the value (None = the key is absent)
+    fn val(&self) -> Option<String> {
+        Some(match self {
+            Jv::Absent => return None, Jv::Null => "null".to_string(), Jv::Int(x) => x.to_string(), Jv::Float(t) => t.to_string(), Jv::Bool(b) => b.to_string(),
+            Jv::Str(t) => serde_json::to_string(t).unwrap(), Jv::Strs(v) => json_str_list(v), Jv::Other(t) => t.to_string(),
+        })
+    }
     fn wire(&self) -> String {
         match self {
             Jv::Absent => "-".into(), Jv::Null => "N".into(), Jv::Int(x) => format!("I{}", x), Jv::Float(_) => "F".into(), Jv::Bool(_) => "B".into(),
@@ -887,7 +1027,8 @@ const U64MAX: i128 = u64::MAX as i128;
 #[derive(Clone, Debug)]
 enum ROov {
     Simple { pos: Jv, l: Jv, r: Jv, c: Jv, mode: Jv },
-    Regex { pos: Jv, l: Jv, r: Jv, c: Jv, mode: Jv, maxlen: Jv, bnd: Jv, alias: bool },
+    /// `rx` = the `regex` setting, `dbgf` = `debug`
+    Regex { pos: Jv, l: Jv, r: Jv, c: Jv, mode: Jv, maxlen: Jv, bnd: Jv, alias: bool, rx: Jv, dbgf: Jv },
     Mecab { lines: Vec<UnkLine>, mode: Jv },
 }
 #[derive(Clone, Debug)]
@@ -898,12 +1039,52 @@ enum RPath { Katakana { pos: Jv, minlen: Jv }, Numeric { en: Jv } }
 #[derive(Clone, Debug)]
 struct UDicSpec { big: usize, own_pos: Vec<[String; 6]>, words: Vec<(i64, i64)> }
 
+/// a member of `inhibitPair` / the whole value, in any JSON shape
 #[derive(Clone, Debug)]
-struct RSpec { nl: usize, nr: usize, matrix: Matrix, inh: Vec<Vec<(i64, i64)>>, input: Vec<RIn>, oov: Vec<ROov>, path: Vec<RPath>, users: Vec<UDicSpec>, tag: String }
+enum RMem { Arr(Vec<Jv>), NotArr(&'static str) }
+#[derive(Clone, Debug)]
+enum RInhJ { Absent, Other(&'static str), Members(Vec<RMem>) }
 
-/// largest repetition bound the model accepts for IgnoreYomigana (the real limit is the size limit of the regex
-/// crate, 27 863..27 866 for the bracket sets used here; values between 20 000 and 30 000 are never generated)
-const YOMI_MAX: usize = 25_000;
+impl RInhJ {
+    fn typed(pairs: &[(i64, i64)]) -> RInhJ { RInhJ::Members(pairs.iter().map(|(a, b)| RMem::Arr(vec![Jv::Int(*a as i128), Jv::Int(*b as i128)])).collect()) }
+    fn json(&self) -> String {
+        let v = match self {
+            RInhJ::Absent => String::new(),
+            RInhJ::Other(t) => format!(r#","inhibitPair":{}"#, t),
+            RInhJ::Members(ms) => format!(r#","inhibitPair":[{}]"#, ms.iter().map(|m| match m {
+                RMem::Arr(xs) => format!("[{}]", xs.iter().filter_map(|x| x.val()).collect::<Vec<_>>().join(",")),
+                RMem::NotArr(t) => t.to_string() }).collect::<Vec<_>>().join(",")),
+        };
+        format!(r#"{{"class":"com.worksap.nlp.sudachi.InhibitConnectionPlugin"{}}}"#, v)
+    }
+    fn wire(&self) -> String {
+        match self {
+            RInhJ::Absent => "J-".into(), RInhJ::Other(_) => "JO".into(),
+            RInhJ::Members(ms) => format!("J{}", ms.iter().map(|m| match m {
+                RMem::Arr(xs) if xs.is_empty() => "E".to_string(),
+                RMem::Arr(xs) => xs.iter().map(|x| match x { Jv::Strs(_) => "O".to_string(), o => o.wire() }).collect::<Vec<_>>().join("+"),
+                RMem::NotArr(_) => "O".into() }).collect::<Vec<_>>().join(",")),
+        }
+    }
+    /// the pairs, if the value is an array of two-element arrays of integers (of any size)
+    fn pairs(&self) -> Option<Vec<(i128, i128)>> {
+        match self {
+            RInhJ::Members(ms) => ms.iter().map(|m| match m { RMem::Arr(xs) if xs.len() == 2 => match (&xs[0], &xs[1]) { (Jv::Int(a), Jv::Int(b)) => Some((*a, *b)), _ => None }, _ => None }).collect(),
+            _ => None,
+        }
+    }
+}
+
+#[derive(Clone, Debug)]
+struct RSpec { nl: usize, nr: usize, matrix: Matrix, inh: Vec<Vec<(i64, i64)>>, inh_raw: Vec<RInhJ>, raw_first: bool, input: Vec<RIn>, oov: Vec<ROov>, path: Vec<RPath>, users: Vec<UDicSpec>, tag: String }
+
+impl RSpec {
+    /// every connection-cost plugin in configuration order
+    fn inh_all(&self) -> Vec<RInhJ> {
+        let t: Vec<RInhJ> = self.inh.iter().map(|p| RInhJ::typed(p)).collect();
+        if self.raw_first { self.inh_raw.iter().cloned().chain(t).collect() } else { t.into_iter().chain(self.inh_raw.iter().cloned()).collect() }
+    }
+}
 
 fn mode_ok(m: &Jv) -> Option<bool> { match m { Jv::Absent => Some(false), Jv::Str(s) if s == "allow" => Some(true), Jv::Str(s) if s == "forbid" => Some(false), _ => None } }
 
@@ -915,10 +1096,14 @@ fn ill(src: &'static str, field: &'static str, v: &Jv, want: &str) -> Violation 
 fn rviolations(spec: &RSpec, dict_pos: &[[String; 6]]) -> Vec<Violation> {
     let (nl, nr) = (spec.nl, spec.nr);
     let mut v = vec![];
-    for (k, pairs) in spec.inh.iter().enumerate() {
-        for (a, b) in pairs {
-            if let Some(x) = id_violation("inhibit", "pair0", *a, nl, nl, &format!("inhibit plugin {}", k)) { v.push(x); }
-            if let Some(x) = id_violation("inhibit", "pair1", *b, nr, nr, &format!("inhibit plugin {}", k)) { v.push(x); }
+    let clamp = |x: i128| -> i64 { x.max(i64::MIN as i128).min(i64::MAX as i128) as i64 };
+    for (k, j) in spec.inh_all().iter().enumerate() {
+        match j.pairs() {
+            None => v.push(Violation { src: "inhibit", field: "inhibitPair", class: "ill-typed", what: format!("inhibit plugin {}: inhibitPair {:?} is not an array of pairs of integers", k, j) }),
+            Some(pairs) => for (a, b) in pairs {
+                if let Some(x) = id_violation("inhibit", "pair0", clamp(a), nl, nl, &format!("inhibit plugin {}", k)) { v.push(x); }
+                if let Some(x) = id_violation("inhibit", "pair1", clamp(b), nr, nr, &format!("inhibit plugin {}", k)) { v.push(x); }
+            }
         }
     }
     for p in &spec.input {
@@ -963,8 +1148,11 @@ fn rviolations(spec: &RSpec, dict_pos: &[[String; 6]]) -> Vec<Violation> {
     for p in &spec.oov {
         match p {
             ROov::Simple { pos, l, r, c, mode } => typed(&mut known, &mut v, "simple", pos, l, r, c, mode),
-            ROov::Regex { pos, l, r, c, mode, maxlen, bnd, .. } => {
+            ROov::Regex { pos, l, r, c, mode, maxlen, bnd, rx, dbgf, .. } => {
                 typed(&mut known, &mut v, "regex", pos, l, r, c, mode);
+                if !matches!(rx, Jv::Str(_)) { v.push(ill("regex", "regex", rx, "a string")); }
+                else if !regex_ok(rx) { v.push(Violation { src: "regex", field: "regex", class: "invalid-pattern", what: format!("regex {:?} does not compile", rx) }); }
+                if !matches!(dbgf, Jv::Absent | Jv::Bool(_)) { v.push(ill("regex", "debug", dbgf, "a boolean")); }
                 if !matches!(maxlen, Jv::Absent) && maxlen.int_in(0, U64MAX).is_none() { v.push(ill("regex", "maxLength", maxlen, "an unsigned integer")); }
                 if !matches!(bnd, Jv::Absent) && !matches!(bnd, Jv::Str(s) if s == "strict" || s == "relaxed") { v.push(ill("regex", "boundaries", bnd, "strict or relaxed")); }
                 // a length that cannot be added to a character offset (texts have at most 49 149 bytes): the later use `offset + max_length` overflows
@@ -1012,6 +1200,11 @@ fn rviolations(spec: &RSpec, dict_pos: &[[String; 6]]) -> Vec<Violation> {
     v
 }
 
+fn dot() -> Jv { Jv::Str(".".into()) }
+/// the verdict of the regex crate on the pattern RegexOovProvider compiles ("^" is prepended unless it is there)
+fn regex_ok(rx: &Jv) -> bool {
+    match rx { Jv::Str(t) => { let p = if t.starts_with('^') { t.clone() } else { format!("^{}", t) }; regex::RegexBuilder::new(&p).build().is_ok() } _ => true }
+}
 fn noun_jv() -> Jv { Jv::Strs(pos_vec(&default_pos()[0])) }
 fn int(x: i128) -> Jv { Jv::Int(x) }
 
@@ -1023,13 +1216,13 @@ fn int_shapes() -> Vec<Jv> {
 }
 
 fn rbase(rng: &mut Rng, nl: usize, nr: usize, tag: String) -> RSpec {
-    RSpec { nl, nr, matrix: Matrix::random(rng, nl, nr, false), inh: vec![], input: vec![], oov: vec![], path: vec![], users: vec![], tag }
+    RSpec { nl, nr, matrix: Matrix::random(rng, nl, nr, false), inh: vec![], inh_raw: vec![], raw_first: false, input: vec![], oov: vec![], path: vec![], users: vec![], tag }
 }
 fn good_simple() -> ROov { ROov::Simple { pos: noun_jv(), l: int(0), r: int(0), c: int(10), mode: Jv::Absent } }
 
 const N_RSHAPES: usize = 23;
 /// directed raw cases: every shape for every numeric / enumerated / list parameter of every bundled plugin
-fn rdirected(k: usize, rng: &mut Rng) -> Option<RSpec> {
+fn rdirected(k: usize, rng: &mut Rng, ctx: &Ctx) -> Option<RSpec> {
     let shapes = int_shapes();
     debug_assert_eq!(shapes.len(), N_RSHAPES);
     // block A: 12 integer fields x 23 shapes
@@ -1043,11 +1236,11 @@ fn rdirected(k: usize, rng: &mut Rng) -> Option<RSpec> {
             0 => s.oov.push(ROov::Simple { pos: noun_jv(), l: x, r: int(0), c: int(1), mode: Jv::Absent }),
             1 => s.oov.push(ROov::Simple { pos: noun_jv(), l: int(0), r: x, c: int(1), mode: Jv::Absent }),
             2 => s.oov.push(ROov::Simple { pos: noun_jv(), l: int(0), r: int(0), c: x, mode: Jv::Absent }),
-            3 => s.oov.push(ROov::Regex { pos: noun_jv(), l: x, r: int(0), c: int(1), mode: Jv::Absent, maxlen: Jv::Absent, bnd: Jv::Absent, alias: si % 2 == 0 }),
-            4 => s.oov.push(ROov::Regex { pos: noun_jv(), l: int(0), r: x, c: int(1), mode: Jv::Absent, maxlen: Jv::Absent, bnd: Jv::Absent, alias: si % 2 == 0 }),
-            5 => s.oov.push(ROov::Regex { pos: noun_jv(), l: int(0), r: int(0), c: x, mode: Jv::Absent, maxlen: Jv::Absent, bnd: Jv::Absent, alias: si % 2 == 0 }),
-            6 => s.oov.push(ROov::Regex { pos: noun_jv(), l: int(1), r: int(2), c: int(1), mode: Jv::Absent, maxlen: x, bnd: Jv::Absent, alias: false }),
-            7 => s.oov.push(ROov::Regex { pos: noun_jv(), l: int(1), r: int(2), c: int(1), mode: Jv::Absent, maxlen: x, bnd: Jv::Str("relaxed".into()), alias: false }),
+            3 => s.oov.push(ROov::Regex { pos: noun_jv(), l: x, r: int(0), c: int(1), mode: Jv::Absent, maxlen: Jv::Absent, bnd: Jv::Absent, alias: si % 2 == 0, rx: dot(), dbgf: Jv::Absent }),
+            4 => s.oov.push(ROov::Regex { pos: noun_jv(), l: int(0), r: x, c: int(1), mode: Jv::Absent, maxlen: Jv::Absent, bnd: Jv::Absent, alias: si % 2 == 0, rx: dot(), dbgf: Jv::Absent }),
+            5 => s.oov.push(ROov::Regex { pos: noun_jv(), l: int(0), r: int(0), c: x, mode: Jv::Absent, maxlen: Jv::Absent, bnd: Jv::Absent, alias: si % 2 == 0, rx: dot(), dbgf: Jv::Absent }),
+            6 => s.oov.push(ROov::Regex { pos: noun_jv(), l: int(1), r: int(2), c: int(1), mode: Jv::Absent, maxlen: x, bnd: Jv::Absent, alias: false, rx: dot(), dbgf: Jv::Absent }),
+            7 => s.oov.push(ROov::Regex { pos: noun_jv(), l: int(1), r: int(2), c: int(1), mode: Jv::Absent, maxlen: x, bnd: Jv::Str("relaxed".into()), alias: false, rx: dot(), dbgf: Jv::Absent }),
             8 => { s.input.push(RIn::Yomi { lb: Jv::Strs(vec!["(".into(), "（".into()]), rb: Jv::Strs(vec![")".into(), "）".into()]), ml: x }); s.oov.push(g); }
             9 => { s.path.push(RPath::Katakana { pos: noun_jv(), minlen: x }); s.oov.push(g); }
             10 => { s.path.push(RPath::Numeric { en: x }); s.oov.push(g); }
@@ -1063,7 +1256,7 @@ fn rdirected(k: usize, rng: &mut Rng) -> Option<RSpec> {
         let x = int(mags[mi]);
         let mut s = rbase(rng, 3, 3, format!("rdirected:mag:{}:{}", f, mi));
         match f {
-            0 => s.oov.push(ROov::Regex { pos: noun_jv(), l: int(0), r: int(0), c: int(1), mode: Jv::Absent, maxlen: x, bnd: if mi % 2 == 0 { Jv::Absent } else { Jv::Str("relaxed".into()) }, alias: false }),
+            0 => s.oov.push(ROov::Regex { pos: noun_jv(), l: int(0), r: int(0), c: int(1), mode: Jv::Absent, maxlen: x, bnd: if mi % 2 == 0 { Jv::Absent } else { Jv::Str("relaxed".into()) }, alias: false, rx: dot(), dbgf: Jv::Absent }),
             1 => { s.input.push(RIn::Yomi { lb: Jv::Strs(vec!["(".into()]), rb: Jv::Strs(vec![")".into()]), ml: x }); s.oov.push(good_simple()); }
             _ => { s.path.push(RPath::Katakana { pos: noun_jv(), minlen: x }); s.oov.push(good_simple()); }
         }
@@ -1079,7 +1272,7 @@ fn rdirected(k: usize, rng: &mut Rng) -> Option<RSpec> {
         let newp = Jv::Strs(new_pos(0));
         match f {
             0 => s.oov.push(ROov::Simple { pos: newp, l: int(0), r: int(0), c: int(1), mode: m }),
-            1 => s.oov.push(ROov::Regex { pos: newp, l: int(0), r: int(0), c: int(1), mode: m, maxlen: Jv::Absent, bnd: Jv::Absent, alias: true }),
+            1 => s.oov.push(ROov::Regex { pos: newp, l: int(0), r: int(0), c: int(1), mode: m, maxlen: Jv::Absent, bnd: Jv::Absent, alias: true, rx: dot(), dbgf: Jv::Absent }),
             _ => { let mut lines = base_unk(&pos_vec(&default_pos()[0])); lines.push(valid_line("KANJI", 1, 1, 5, &new_pos(0))); s.oov.push(ROov::Mecab { lines, mode: m }); }
         }
         return Some(s);
@@ -1088,7 +1281,7 @@ fn rdirected(k: usize, rng: &mut Rng) -> Option<RSpec> {
     let bnds: Vec<Jv> = vec![Jv::Absent, Jv::Str("strict".into()), Jv::Str("relaxed".into()), Jv::Str("Strict".into()), Jv::Str("loose".into()), Jv::Str("".into()), Jv::Null, Jv::Bool(false), int(0), Jv::Strs(vec![]), Jv::Other("{}")];
     if k < bnds.len() {
         let mut s = rbase(rng, 3, 3, format!("rdirected:boundaries:{}", k));
-        s.oov.push(ROov::Regex { pos: noun_jv(), l: int(2), r: int(1), c: int(-3), mode: Jv::Absent, maxlen: int(2), bnd: bnds[k].clone(), alias: false });
+        s.oov.push(ROov::Regex { pos: noun_jv(), l: int(2), r: int(1), c: int(-3), mode: Jv::Absent, maxlen: int(2), bnd: bnds[k].clone(), alias: false, rx: dot(), dbgf: Jv::Absent });
         return Some(s);
     }
     let k = k - bnds.len();
@@ -1103,7 +1296,7 @@ fn rdirected(k: usize, rng: &mut Rng) -> Option<RSpec> {
         let mut s = rbase(rng, 3, 3, format!("rdirected:oovPOS:{}:{}", f, li));
         match f {
             0 => s.oov.push(ROov::Simple { pos: p, l: int(0), r: int(0), c: int(1), mode: Jv::Str("allow".into()) }),
-            1 => s.oov.push(ROov::Regex { pos: p, l: int(0), r: int(0), c: int(1), mode: Jv::Absent, maxlen: Jv::Absent, bnd: Jv::Absent, alias: li % 2 == 1 }),
+            1 => s.oov.push(ROov::Regex { pos: p, l: int(0), r: int(0), c: int(1), mode: Jv::Absent, maxlen: Jv::Absent, bnd: Jv::Absent, alias: li % 2 == 1, rx: dot(), dbgf: Jv::Absent }),
             2 => { s.path.push(RPath::Katakana { pos: p, minlen: int(3) }); s.oov.push(good_simple()); }
             _ => { // the POS a path-rewrite plugin names may have been registered by an OOV provider, never by a user dictionary
                 s.oov.push(ROov::Simple { pos: Jv::Strs(new_pos(1)), l: int(0), r: int(0), c: int(1), mode: Jv::Str("allow".into()) });
@@ -1169,7 +1362,7 @@ fn rdirected(k: usize, rng: &mut Rng) -> Option<RSpec> {
             s.inh.push(vec![(1, 2)]);
             s.input.push(RIn::Prolonged { marks: Jv::Strs(vec!["ー".into(), "〜".into()]), repl: Jv::Absent });
             s.input.push(RIn::Yomi { lb: Jv::Strs(vec!["(".into()]), rb: Jv::Strs(vec![")".into()]), ml: int(4) });
-            s.oov.push(ROov::Regex { pos: noun_jv(), l: int(3), r: int(3), c: int(100), mode: Jv::Absent, maxlen: int(3), bnd: Jv::Str("relaxed".into()), alias: false });
+            s.oov.push(ROov::Regex { pos: noun_jv(), l: int(3), r: int(3), c: int(100), mode: Jv::Absent, maxlen: int(3), bnd: Jv::Str("relaxed".into()), alias: false, rx: dot(), dbgf: Jv::Absent });
             s.oov.push(ROov::Mecab { lines: base_unk(&pos_vec(&default_pos()[0])), mode: Jv::Absent });
             s.oov.push(good_simple());
             s.path.push(RPath::Numeric { en: Jv::Bool(false) });
@@ -1184,11 +1377,172 @@ fn rdirected(k: usize, rng: &mut Rng) -> Option<RSpec> {
             s.users.push(UDicSpec { big: 3, own_pos: vec![NEW_POS[0].map(|x| x.to_string())], words: vec![(0, 0)] });
             Some(s)
         }
+        _ => rdirected3(k - 12, rng, ctx),
+    }
+}
+
+/// third round: what the generators of the first two rounds never produced
+fn rdirected3(k: usize, rng: &mut Rng, ctx: &Ctx) -> Option<RSpec> {
+    let dict_pos = default_pos();
+    // block E: POS lists of EVERY length 0..8 that agree with the FIRST / LAST POS of the dictionary as far as they go
+    // (zip semantics: a lookup without the arity guard would match them) x Simple allow / Simple forbid / Regex default / JoinKatakanaOov
+    if k < 2 * 9 * 4 {
+        let (which, len, f) = (k / 36, (k / 4) % 9, k % 4);
+        let base = pos_vec(&dict_pos[if which == 0 { 0 } else { dict_pos.len() - 1 }]);
+        let mut p: Vec<String> = base.iter().take(len.min(6)).cloned().collect();
+        while p.len() < len { p.push("*".into()); }
+        let mut s = rbase(rng, 3, 3, format!("rdirected:pos-arity:{}:{}:{}", if which == 0 { "first" } else { "last" }, len, f));
+        let p = Jv::Strs(p);
+        match f {
+            0 => s.oov.push(ROov::Simple { pos: p, l: int(0), r: int(0), c: int(1), mode: Jv::Str("allow".into()) }),
+            1 => s.oov.push(ROov::Simple { pos: p, l: int(0), r: int(0), c: int(1), mode: Jv::Str("forbid".into()) }),
+            2 => s.oov.push(ROov::Regex { pos: p, l: int(0), r: int(0), c: int(1), mode: Jv::Absent, maxlen: Jv::Absent, bnd: Jv::Absent, alias: len % 2 == 0, rx: dot(), dbgf: Jv::Absent }),
+            _ => { s.oov.push(good_simple()); s.path.push(RPath::Katakana { pos: p, minlen: int(2) }); }
+        }
+        return Some(s);
+    }
+    let k = k - 72;
+    // block F: maxYomiganaLength around the size limit of the regex crate, measured for the bracket sets of the case
+    let sets: [(Vec<&str>, Vec<&str>); 3] = [(vec!["("], vec![")"]), (vec!["(", "（"], vec![")", "）"]), (vec!["《", "(", "[", "👍"], vec!["》"])];
+    if k < 3 * 3 + 9 {
+        let (lb, rb, n): (Vec<String>, Vec<String>, usize) = if k < 9 {
+            let (l, r) = &sets[k / 3];
+            let (l, r): (Vec<String>, Vec<String>) = (l.iter().map(|x| x.to_string()).collect(), r.iter().map(|x| x.to_string()).collect());
+            let lim = yomi_limit(ctx, &l, &r);
+            (l, r, lim + (k % 3) - 1)
+        } else {
+            (vec!["(".into()], vec![")".into()], [19_999usize, 20_000, 20_001, 25_000, 27_000, 29_999, 30_000, 40_000, 40_001][k - 9])
+        };
+        let mut s = rbase(rng, 3, 3, format!("rdirected:yomigana-band:{}", k));
+        s.input.push(RIn::Yomi { lb: Jv::Strs(lb), rb: Jv::Strs(rb), ml: int(n as i128) });
+        s.oov.push(good_simple());
+        return Some(s);
+    }
+    let k = k - 18;
+    // block G: 13, 14 (the most LexiconSet takes) and 15 user dictionaries; own POS in several of them; precedence of the id check
+    if k < 5 {
+        let n = [1usize, 13, 14, 15, 15][k];
+        let mut s = rbase(rng, 3, 3, format!("rdirected:user-dictionaries:{}{}", n, if k == 4 { ":bad-ids-in-last" } else { "" }));
+        s.oov.push(ROov::Simple { pos: Jv::Strs(new_pos(1)), l: int(0), r: int(0), c: int(1), mode: Jv::Str("allow".into()) });
+        for u in 0..n {
+            let own: Vec<[String; 6]> = if u % 3 == 0 { vec![NEW_POS[(u / 3) % 3].map(|x| x.to_string())] } else { vec![] };
+            let words = if k == 4 && u == n - 1 { vec![(4, 0)] } else { vec![((u % 3) as i64, ((u + 1) % 3) as i64)] };
+            s.users.push(UDicSpec { big: 5, own_pos: own, words });
+        }
+        return Some(s);
+    }
+    let k = k - 5;
+    // block H: how unk.def numbers are read (str::parse::<i16>): sign, leading zeros, blanks, empty, non-ASCII digits, i16 limits
+    let nums: [(&str, Option<i64>); 14] = [("+1", Some(1)), ("-0", Some(0)), ("01", Some(1)), ("0002", Some(2)), (" 1", None), ("1 ", None), ("", None), ("1.0", None),
+        ("0x1", None), ("１", None), ("+", None), ("-", None), ("1e0", None), ("--1", None)];
+    if k < nums.len() * 2 {
+        let (ni, col) = (k / 2, k % 2);
+        let (txt, val) = nums[ni];
+        let noun = pos_vec(&dict_pos[0]);
+        let mut lines = base_unk(&noun);
+        let (l, r, c) = if col == 0 { (txt.to_string(), "1".to_string(), "7".to_string()) } else { ("1".to_string(), "2".to_string(), txt.to_string()) };
+        let raw = format!("KANJI,{},{},{},{}", l, r, c, noun.join(","));
+        let parsed = val.map(|v| if col == 0 { ("KANJI".to_string(), v, 1, 7, noun.clone()) } else { ("KANJI".to_string(), 1, 2, v, noun.clone()) });
+        lines.push(UnkLine { raw, parsed });
+        let mut s = rbase(rng, 3, 3, format!("rdirected:unkdef-number:{}:{}", ni, col));
+        s.oov.push(ROov::Mecab { lines, mode: Jv::Absent });
+        return Some(s);
+    }
+    let k = k - 28;
+    // block I: unk.def files of odd shapes: empty, only comments, the i16 limits as costs, the same category many times
+    match k {
+        0 => { let mut s = rbase(rng, 3, 3, "rdirected:unkdef-empty".into()); s.oov.push(ROov::Mecab { lines: vec![], mode: Jv::Absent }); Some(s) }
+        1 => { let mut s = rbase(rng, 3, 3, "rdirected:unkdef-comments-only".into());
+               s.oov.push(ROov::Mecab { lines: vec![UnkLine { raw: "# nothing".into(), parsed: None }, UnkLine { raw: "".into(), parsed: None }], mode: Jv::Absent }); s.oov.push(good_simple()); Some(s) }
+        2 => { let noun = pos_vec(&dict_pos[0]); let mut s = rbase(rng, 3, 3, "rdirected:unkdef-cost-limits".into());
+               s.oov.push(ROov::Mecab { lines: vec![valid_line("KANJI", 2, 2, 32767, &noun), valid_line("KANJI", 0, 0, -32768, &noun), valid_line("DEFAULT", 1, 1, 0, &noun)], mode: Jv::Absent }); Some(s) }
+        3 => { let noun = pos_vec(&dict_pos[0]); let mut s = rbase(rng, 3, 3, "rdirected:unkdef-same-category-x9".into());
+               s.oov.push(ROov::Mecab { lines: (0..9).map(|i| valid_line("ALPHA", i % 3, (i / 3) % 3, i * 10, &noun)).collect(), mode: Jv::Absent }); Some(s) }
+        4 => { // POS whose components are 1-, 2-, 3- and 4-byte characters, registered and looked up again
+               let wide: Vec<String> = vec!["a".into(), "é".into(), "名".into(), "👍".into(), "é👍".into(), "*".into()];
+               let mut s = rbase(rng, 3, 3, "rdirected:pos-encoding-widths".into());
+               s.oov.push(ROov::Simple { pos: Jv::Strs(wide.clone()), l: int(0), r: int(0), c: int(1), mode: Jv::Str("allow".into()) });
+               s.oov.push(ROov::Regex { pos: Jv::Strs(wide.clone()), l: int(1), r: int(1), c: int(1), mode: Jv::Absent, maxlen: Jv::Absent, bnd: Jv::Absent, alias: false, rx: dot(), dbgf: Jv::Absent });
+               s.path.push(RPath::Katakana { pos: Jv::Strs(wide), minlen: int(1) }); Some(s) }
+        6..=67 => {
+            // block J: inhibitPair in every JSON shape: every element shape at both positions, members of 0/1/3 elements,
+            // members that are not arrays, the key absent / not an array / empty; error precedence between two plugins
+            let j = k - 6;
+            let shapes = int_shapes();
+            let mut s = rbase(rng, 3, 3, format!("rdirected:inhibitPair:{}", j));
+            s.oov.push(good_simple());
+            let one = |m: RMem| RInhJ::Members(vec![RMem::Arr(vec![int(0), int(1)]), m]);
+            if j < 46 {
+                let x = match shapes[j % 23].clone() { Jv::Absent => Jv::Other("[]"), x => x };
+                s.inh_raw.push(one(RMem::Arr(if j < 23 { vec![x, int(1)] } else { vec![int(1), x] })));
+            } else {
+                match j - 46 {
+                    0 => s.inh_raw.push(one(RMem::Arr(vec![]))),
+                    1 => s.inh_raw.push(one(RMem::Arr(vec![int(1)]))),
+                    2 => s.inh_raw.push(one(RMem::Arr(vec![int(1), int(2), int(0)]))),
+                    3 => s.inh_raw.push(one(RMem::NotArr("5"))),
+                    4 => s.inh_raw.push(one(RMem::NotArr("\"1,2\""))),
+                    5 => s.inh_raw.push(one(RMem::NotArr("null"))),
+                    6 => s.inh_raw.push(one(RMem::NotArr("{}"))),
+                    7 => s.inh_raw.push(RInhJ::Absent),
+                    8 => s.inh_raw.push(RInhJ::Other("null")),
+                    9 => s.inh_raw.push(RInhJ::Other("5")),
+                    10 => s.inh_raw.push(RInhJ::Other("\"x\"")),
+                    11 => s.inh_raw.push(RInhJ::Other("{}")),
+                    12 => s.inh_raw.push(RInhJ::Members(vec![])),
+                    13 => s.inh_raw.push(RInhJ::Members(vec![RMem::Arr(vec![int(2), int(1)]), RMem::Arr(vec![int(2), int(1)]), RMem::Arr(vec![int(0), int(0)])])),
+                    14 => { s.inh.push(vec![(3, 0)]); s.inh_raw.push(RInhJ::Absent); }                      // range error of the first plugin wins
+                    _ => { s.inh.push(vec![(3, 0)]); s.inh_raw.push(RInhJ::Absent); s.raw_first = true; }   // serde error of the first plugin wins
+                }
+            }
+            Some(s)
+        }
+        68..=91 => {
+            // block K: the `regex` and `debug` settings of RegexOovProvider; the pattern is compiled LAST in set_up
+            let j = k - 68;
+            let mut s = rbase(rng, 3, 3, format!("rdirected:regex-setting:{}", j));
+            let mk = |pos: Jv, l: i128, mode: Jv, rx: Jv, dbgf: Jv| ROov::Regex { pos, l: int(l), r: int(1), c: int(5), mode, maxlen: Jv::Absent, bnd: Jv::Absent, alias: false, rx, dbgf };
+            let st = |t: &str| Jv::Str(t.to_string());
+            let allow = Jv::Str("allow".into());
+            s.oov.push(match j {
+                0 => mk(noun_jv(), 1, Jv::Absent, st("^."), Jv::Absent),
+                1 => mk(noun_jv(), 1, Jv::Absent, st("("), Jv::Absent),
+                2 => mk(noun_jv(), 1, Jv::Absent, st("["), Jv::Absent),
+                3 => mk(noun_jv(), 1, Jv::Absent, st("a{2,1}"), Jv::Absent),
+                4 => mk(noun_jv(), 1, Jv::Absent, st("\\"), Jv::Absent),
+                5 => mk(noun_jv(), 1, Jv::Absent, st("(?P<"), Jv::Absent),
+                6 => mk(noun_jv(), 1, Jv::Absent, st(")"), Jv::Absent),             // ("*" is VALID for the crate: `^*`)
+                7 => mk(noun_jv(), 1, Jv::Absent, st("(?s)."), Jv::Absent),
+                8 => mk(noun_jv(), 1, Jv::Absent, Jv::Null, Jv::Absent),
+                9 => mk(noun_jv(), 1, Jv::Absent, int(5), Jv::Absent),
+                10 => mk(noun_jv(), 1, Jv::Absent, Jv::Absent, Jv::Absent),
+                11 => mk(noun_jv(), 1, Jv::Absent, Jv::Strs(vec![".".into()]), Jv::Absent),
+                12 => mk(noun_jv(), 1, Jv::Absent, dot(), Jv::Bool(true)),
+                13 => mk(noun_jv(), 1, Jv::Absent, dot(), Jv::Bool(false)),
+                14 => mk(noun_jv(), 1, Jv::Absent, dot(), Jv::Null),
+                15 => mk(noun_jv(), 1, Jv::Absent, dot(), int(1)),
+                16 => mk(noun_jv(), 1, Jv::Absent, dot(), st("true")),
+                17 => mk(noun_jv(), 9, Jv::Absent, st("("), Jv::Absent),                        // the id error comes first
+                18 => mk(Jv::Strs(new_pos(0)), 1, Jv::Absent, st("("), Jv::Absent),             // the POS error comes first
+                19 => mk(Jv::Strs(new_pos(0)), 1, allow.clone(), st("("), Jv::Absent),          // POS registered, then ConfigError
+                20 => mk(noun_jv(), 1, Jv::Absent, st("(?i)."), Jv::Absent),                     // a flag group in front of the inserted ^
+                21 => mk(noun_jv(), 1, Jv::Absent, st(".|"), Jv::Absent),
+                22 => mk(noun_jv(), 1, Jv::Absent, st("^^."), Jv::Absent),
+                _ => mk(noun_jv(), 1, Jv::Absent, st("\\p{Han}|."), Jv::Absent),
+            });
+            if j == 19 { s.oov.push(good_simple()); }
+            Some(s)
+        }
+        5 => { // two-byte single characters as brackets / sound marks (the Vec<char> test counts characters, not bytes)
+               let mut s = rbase(rng, 3, 3, "rdirected:chars-two-byte".into());
+               s.input.push(RIn::Prolonged { marks: Jv::Strs(vec!["é".into(), "ー".into(), "👍".into(), "-".into()]), repl: Jv::Str("é".into()) });
+               s.input.push(RIn::Yomi { lb: Jv::Strs(vec!["«".into()]), rb: Jv::Strs(vec!["»".into(), "👍".into()]), ml: int(3) });
+               s.oov.push(good_simple()); Some(s) }
         _ => None,
     }
 }
 
-pub const N_RDIRECTED: usize = 12 * N_RSHAPES + 3 * 18 + 3 * 12 + 11 + 4 * 13 + 3 * 15 + 12;
+pub const N_RDIRECTED: usize = 12 * N_RSHAPES + 3 * 18 + 3 * 12 + 11 + 4 * 13 + 3 * 15 + 12 + (72 + 18 + 5 + 28 + 6 + 62 + 24);
 
 fn rand_int_jv(rng: &mut Rng, n: usize, chaos: usize) -> Jv {
     let k = rng.below(100);
@@ -1197,7 +1551,7 @@ fn rand_int_jv(rng: &mut Rng, n: usize, chaos: usize) -> Jv {
     else { int(rng.below(n) as i128) }
 }
 
-fn random_rspec(rng: &mut Rng) -> RSpec {
+fn random_rspec(rng: &mut Rng, ctx: &Ctx) -> RSpec {
     let square = rng.chance(7, 10);
     let nl = rng.range(1, 6);
     let nr = if square { nl } else { rng.range(1, 6) };
@@ -1208,10 +1562,24 @@ fn random_rspec(rng: &mut Rng) -> RSpec {
         let np = rng.range(1, 3);
         s.inh.push((0..np).map(|_| (if rng.below(100) < chaos { *rng.pick(&boundary_vals(nl)) } else { rng.below(nl) as i64 }, if rng.below(100) < chaos { *rng.pick(&boundary_vals(nr)) } else { rng.below(nr) as i64 })).collect());
     }
+    if rng.chance(1, 12) {
+        // (an absent ELEMENT does not exist in JSON: null instead)
+        let elem = |rng: &mut Rng, n: usize| -> Jv { if rng.chance(1, 6) { match rng.pick(&int_shapes()).clone() { Jv::Absent => Jv::Null, x => x } } else { int(rng.below(n) as i128) } };
+        let nm = rng.below(4);
+        let ms: Vec<RMem> = (0..nm).map(|_| match rng.below(12) { 0 => RMem::Arr(vec![elem(rng, nl)]), 1 => RMem::Arr(vec![elem(rng, nl), elem(rng, nr), int(0)]), 2 => RMem::NotArr("7"), _ => RMem::Arr(vec![elem(rng, nl), elem(rng, nr)]) }).collect();
+        s.inh_raw.push(match rng.below(14) { 0 => RInhJ::Absent, 1 => RInhJ::Other("null"), _ => RInhJ::Members(ms) });
+        s.raw_first = rng.chance(1, 2);
+    }
     let pos_jv = |rng: &mut Rng| -> Jv {
         let k = rng.below(100);
-        if k < 75 { Jv::Strs(pos_vec(&dict_pos[rng.below(dict_pos.len())])) } else if k < 90 { Jv::Strs(new_pos(rng.below(3))) }
-        else if k < 94 { Jv::Strs(pos_vec(&dict_pos[0])[..5].to_vec()) } else if k < 97 { Jv::Null } else { Jv::Other(r#"["名詞",1]"#) }
+        if k < 72 { Jv::Strs(pos_vec(&dict_pos[rng.below(dict_pos.len())])) } else if k < 87 { Jv::Strs(new_pos(rng.below(3))) }
+        else if k < 94 {
+            // any length 0..8, agreeing with some POS of the dictionary as far as it goes
+            let len = rng.below(9);
+            let mut p: Vec<String> = pos_vec(&dict_pos[rng.below(dict_pos.len())]).into_iter().take(len.min(6)).collect();
+            while p.len() < len { p.push("*".into()); }
+            Jv::Strs(p)
+        } else if k < 97 { Jv::Null } else { Jv::Other(r#"["名詞",1]"#) }
     };
     let mode_jv = |rng: &mut Rng| -> Jv {
         match rng.below(20) { 0..=7 => Jv::Absent, 8..=13 => Jv::Str("allow".into()), 14..=17 => Jv::Str("forbid".into()), 18 => Jv::Str("Allow".into()), _ => Jv::Null }
@@ -1226,8 +1594,16 @@ fn random_rspec(rng: &mut Rng) -> RSpec {
             let mk = |rng: &mut Rng, pool: &[&str]| -> Jv { let k = rng.below(40); if k == 0 { Jv::Strs(vec![]) } else if k == 1 { Jv::Strs(vec!["ab".into()]) } else if k == 2 { Jv::Null } else { let n = rng.range(1, pool.len()); Jv::Strs(pool[..n].iter().map(|x| x.to_string()).collect()) } };
             let lb = mk(rng, &["(", "（", "[", "《"]);
             let rb = mk(rng, &[")", "）", "]", "》"]);
-            let ml = { let k = rng.below(100); if k < chaos { rng.pick(&int_shapes()).clone() } else if k < chaos * 2 { int(*rng.pick(&[0i128, 30000, 100000, u32::MAX as i128, U64MAX])) } else { int(rng.range(1, 40) as i128) } };
-            s.input.push(RIn::Yomi { lb, rb, ml });
+            let ml = { let k = rng.below(100); if k < chaos { rng.pick(&int_shapes()).clone() } else if k < chaos * 2 { int(*rng.pick(&[0i128, 50000, 100000, u32::MAX as i128, U64MAX])) } else { int(rng.range(1, 40) as i128) } };
+            if rng.chance(1, 12) {
+                // the band of the regex crate's size limit, with one of the two bracket sets whose limit the directed block measured
+                let (l, r): (Vec<String>, Vec<String>) = if rng.chance(1, 2) { (vec!["(".into()], vec![")".into()]) } else { (vec!["(".into(), "（".into()], vec![")".into(), "）".into()]) };
+                let lim = yomi_limit(ctx, &l, &r);
+                let n = *rng.pick(&[lim - 1, lim, lim + 1, lim + 2, 20_001, 23_456, 27_000, lim - 100, 30_000, 39_999]);
+                s.input.push(RIn::Yomi { lb: Jv::Strs(l), rb: Jv::Strs(r), ml: int(n as i128) });
+            } else {
+                s.input.push(RIn::Yomi { lb, rb, ml });
+            }
         } else {
             let k = rng.below(30);
             let marks = if k == 0 { Jv::Strs(vec![]) } else if k == 1 { Jv::Strs(vec!["ーー".into()]) } else if k == 2 { Jv::Str("ー".into()) } else { let pool = ["ー", "〜", "-", "~", "]", "^", "&"]; let n = rng.range(1, 5); Jv::Strs((0..n).map(|_| rng.pick(&pool).to_string()).collect()) };
@@ -1241,7 +1617,10 @@ fn random_rspec(rng: &mut Rng) -> RSpec {
             0 | 1 => s.oov.push(ROov::Simple { pos: pos_jv(rng), l: rand_int_jv(rng, nl, chaos), r: rand_int_jv(rng, nr, chaos), c: if rng.below(100) < chaos { rng.pick(&int_shapes()).clone() } else { int(rng.below(3000) as i128 - 500) }, mode: mode_jv(rng) }),
             2 | 3 => s.oov.push(ROov::Regex { pos: pos_jv(rng), l: rand_int_jv(rng, nl, chaos), r: rand_int_jv(rng, nr, chaos), c: if rng.below(100) < chaos { rng.pick(&int_shapes()).clone() } else { int(rng.below(3000) as i128 - 500) }, mode: mode_jv(rng),
                 maxlen: if rng.chance(1, 3) { Jv::Absent } else { usize_jv(rng, 8) },
-                bnd: match rng.below(12) { 0..=4 => Jv::Absent, 5..=7 => Jv::Str("strict".into()), 8..=10 => Jv::Str("relaxed".into()), _ => Jv::Str("Relaxed".into()) }, alias: rng.chance(1, 2) }),
+                bnd: match rng.below(12) { 0..=4 => Jv::Absent, 5..=7 => Jv::Str("strict".into()), 8..=10 => Jv::Str("relaxed".into()), _ => Jv::Str("Relaxed".into()) }, alias: rng.chance(1, 2),
+                // `^.` takes the other branch of `starts_with("^")`; the invalid patterns are refused by the regex crate
+                rx: match rng.below(40) { 0 => Jv::Str("(".into()), 1 => Jv::Str("a{2,1}".into()), 2 => Jv::Null, 3..=12 => Jv::Str("^.".into()), _ => dot() },
+                dbgf: match rng.below(30) { 0 => Jv::Null, 1 => int(1), 2 | 3 => Jv::Bool(true), 4 | 5 => Jv::Bool(false), _ => Jv::Absent } }),
             _ => {
                 let mut g = Gen { rng, nl, nr, chaos, dict_pos: dict_pos.clone() };
                 if let Prov::Mecab { lines, .. } = (loop { let p = g.prov(); if matches!(p, Prov::Mecab { .. }) { break p; } }) {
@@ -1256,17 +1635,29 @@ fn random_rspec(rng: &mut Rng) -> RSpec {
         else { s.path.push(RPath::Numeric { en: match rng.below(10) { 0 => int(1), 1 => Jv::Str("true".into()), 2 => Jv::Null, 3 | 4 => Jv::Bool(false), 5 => Jv::Bool(true), _ => Jv::Absent } }); }
     }
     if rng.chance(1, 3) {
-        let nu = rng.range(1, 2);
+        let nu = if rng.chance(1, 25) { rng.range(12, 16) } else { rng.range(1, 2) };
         for _ in 0..nu {
             let big = if rng.chance(1, 2) { nl.max(nr) } else { nl.max(nr) + rng.range(1, 3) };
             let nw = rng.range(1, 3);
             let mut words = vec![];
-            for _ in 0..nw { let a = if rng.chance(1, 3) { big } else { nl.min(nr) }; let b = if rng.chance(1, 3) { big } else { nl.min(nr) }; words.push((rng.below(a) as i64, rng.below(b) as i64)); }
+            // many dictionaries: keep their ids inside the matrix, so that the number of dictionaries decides the outcome
+            let wild = if nu >= 12 { 40 } else { 3 };
+            for _ in 0..nw { let a = if rng.chance(1, wild) { big } else { nl.min(nr) }; let b = if rng.chance(1, wild) { big } else { nl.min(nr) }; words.push((rng.below(a) as i64, rng.below(b) as i64)); }
             let own_pos = if rng.chance(1, 2) { vec![NEW_POS[rng.below(3)].map(|x| x.to_string())] } else { vec![] };
             s.users.push(UDicSpec { big, own_pos, words });
         }
     }
     s
+}
+
+/// third variant switch: the reader of the grammar section refuses a negative header number and compares bytes with bytes
+/// (fix_grammar_header.patch)
+fn gvariant_flag() -> char {
+    let dir = crate::c07::repo_sudachi_dir();
+    let read = |p: &str| std::fs::read_to_string(format!("{}/src/{}", dir, p)).unwrap_or_default();
+    let gr = read("dic/grammar.rs");
+    let cn = read("dic/connect.rs");
+    if gr.contains("left_id_size < 0 || right_id_size < 0") && cn.contains("let end = offset + size * 2;") { '1' } else { '0' }
 }
 
 fn rvariant_flags() -> String {
@@ -1293,6 +1684,7 @@ fn run_rload(run: &mut Run, ctx: &Ctx, idx: usize, rng: &mut Rng, spec: &RSpec) 
     // POS but a `big` x `big` matrix, then loaded next to THIS system dictionary
     let mut users = vec![];
     let mut user_texts: Vec<String> = vec![];
+    let mut declared: Vec<(u8, String, Vec<String>)> = rows.iter().map(|r| (0u8, r.surface.clone(), dict_pos[r.pos].to_vec())).collect();
     for (u, ud) in spec.users.iter().enumerate() {
         let big_m = Matrix::random(rng, ud.big, ud.big, false);
         let big_sys = match build_system(csv.as_bytes(), big_m.text().as_bytes()) { Ok(b) => b, Err(e) => { run.bump(&format!("dict-build-failed:{}", e.chars().take(30).collect::<String>())); return; } };
@@ -1306,6 +1698,7 @@ fn run_rload(run: &mut Run, ctx: &Ctx, idx: usize, rng: &mut Rng, spec: &RSpec) 
             // the own POS are used by the first words so that they are stored
             let p = if j < ud.own_pos.len() { dict_pos.len() + j } else { 0 };
             urows.push(Row::simple(&surf, *l as i32, *r as i32, 50, p));
+            declared.push((u as u8 + 1, surf.clone(), upos[p].to_vec()));
             user_texts.push(format!("あ{}い", surf));
         }
         // own POS without a word using it are not stored: give each one a word
@@ -1324,9 +1717,10 @@ fn run_rload(run: &mut Run, ctx: &Ctx, idx: usize, rng: &mut Rng, spec: &RSpec) 
                 oov_json.push(format!(r#"{{"class":"com.worksap.nlp.sudachi.SimpleOovPlugin"{}{}{}{}{}}}"#, pos.json("oovPOS"), l.json("leftId"), r.json("rightId"), c.json("cost"), mode.json("userPOS")));
                 oov_wire.push(format!("S:{}:{}:{}:{}:{}", pos.wire(), l.wire(), r.wire(), c.wire(), mode.wire()));
             }
-            ROov::Regex { pos, l, r, c, mode, maxlen, bnd, alias } => {
-                oov_json.push(format!(r#"{{"class":"com.worksap.nlp.sudachi.RegexOovProvider","regex":"."{}{}{}{}{}{}{}}}"#, pos.json(if *alias { "oovPOS" } else { "pos" }), l.json("leftId"), r.json("rightId"), c.json("cost"), mode.json("userPOS"), maxlen.json("maxLength"), bnd.json("boundaries")));
-                oov_wire.push(format!("R:{}:{}:{}:{}:{}:{}:{}", pos.wire(), l.wire(), r.wire(), c.wire(), mode.wire(), maxlen.wire(), bnd.wire()));
+            ROov::Regex { pos, l, r, c, mode, maxlen, bnd, alias, rx, dbgf } => {
+                oov_json.push(format!(r#"{{"class":"com.worksap.nlp.sudachi.RegexOovProvider"{}{}{}{}{}{}{}{}{}}}"#, rx.json("regex"), pos.json(if *alias { "oovPOS" } else { "pos" }), l.json("leftId"), r.json("rightId"), c.json("cost"), mode.json("userPOS"), maxlen.json("maxLength"), bnd.json("boundaries"), dbgf.json("debug")));
+                oov_wire.push(format!("R:{}:{}:{}:{}:{}:{}:{}:{}:{}:{}", pos.wire(), l.wire(), r.wire(), c.wire(), mode.wire(), maxlen.wire(), bnd.wire(), rx.wire(), dbgf.wire(), if regex_ok(rx) { 1 } else { 0 }));
+                run.bump(&format!("regex-setting:{}", match rx { Jv::Str(t) if t == "." => "dot", Jv::Str(t) if t == "^." => "anchored", Jv::Str(_) => if regex_ok(rx) { "other-valid" } else { "invalid-pattern" }, _ => "not-a-string" }));
             }
             ROov::Mecab { lines, mode } => {
                 let name = format!("unk{}.def", i);
@@ -1344,7 +1738,8 @@ fn run_rload(run: &mut Run, ctx: &Ctx, idx: usize, rng: &mut Rng, spec: &RSpec) 
         match p {
             RIn::Yomi { lb, rb, ml } => {
                 in_json.push(format!(r#"{{"class":"com.worksap.nlp.sudachi.IgnoreYomiganaPlugin"{}{}{}}}"#, lb.json("leftBrackets"), rb.json("rightBrackets"), ml.json("maxYomiganaLength")));
-                in_wire.push(format!("Y:{}:{}:{}", lb.wire(), rb.wire(), ml.wire()));
+                let lim = yomi_lim(ctx, run, lb, rb, ml);
+                in_wire.push(format!("Y:{}:{}:{}:{}", lb.wire(), rb.wire(), ml.wire(), lim));
             }
             RIn::Prolonged { marks, repl } => {
                 in_json.push(format!(r#"{{"class":"com.worksap.nlp.sudachi.ProlongedSoundMarkPlugin"{}{}}}"#, marks.json("prolongedSoundMarks"), repl.json("replacementSymbol")));
@@ -1366,14 +1761,15 @@ fn run_rload(run: &mut Run, ctx: &Ctx, idx: usize, rng: &mut Rng, spec: &RSpec) 
             }
         }
     }
-    let inh_json: Vec<String> = spec.inh.iter().map(|pairs| format!(r#"{{"class":"com.worksap.nlp.sudachi.InhibitConnectionPlugin","inhibitPair":[{}]}}"#, pairs.iter().map(|(a, b)| format!("[{},{}]", a, b)).collect::<Vec<_>>().join(","))).collect();
-    let inh_wire: Vec<String> = spec.inh.iter().map(|pairs| format!("I{}", pairs.iter().map(|(a, b)| format!("{}:{}", a, b)).collect::<Vec<_>>().join(","))).collect();
+    let inh_json: Vec<String> = spec.inh_all().iter().map(|j| j.json()).collect();
+    let inh_wire: Vec<String> = spec.inh_all().iter().map(|j| j.wire()).collect();
+    for j in &spec.inh_raw { run.bump(&format!("inhibitPair:raw-shape:{}", match j { RInhJ::Absent => "absent", RInhJ::Other(_) => "not-an-array", RInhJ::Members(ms) if ms.is_empty() => "empty-array", RInhJ::Members(_) => if j.pairs().is_some() { "pairs-of-integers" } else { "odd-members" } })); }
     let cfg_json = config_json(&ctx.wd, &in_json, &oov_json, &path_json, &inh_json);
     let udic_wire: Vec<String> = spec.users.iter().map(|u| format!("{}@{}", u.own_pos.iter().map(|p| hex_pos(p)).collect::<Vec<_>>().join(";"), u.words.iter().map(|(l, r)| format!("{}.{}", l, r)).collect::<Vec<_>>().join(","))).collect();
     let plen = PROBE.chars().count();
-    let payload = format!("v={} w={} nl={} nr={} conn={} inh={} inp={} oov={} path={} udic={} pos={} numpos={} ymax={} plen={} cdef={}",
+    let payload = format!("v={} w={} nl={} nr={} conn={} inh={} inp={} oov={} path={} udic={} pos={} numpos={} plen={} cdef={}",
         ctx.variant, ctx.variant2, nl, nr, join(spec.matrix.cells.iter(), ","), inh_wire.join(";"), in_wire.join(";"), oov_wire.join(";"), path_wire.join(";"),
-        udic_wire.join("|"), dict_pos.iter().map(|p| hex_pos(p)).collect::<Vec<_>>().join(";"), hex_pos(&dict_pos[NUMERAL]), YOMI_MAX, plen, hex(CHAR_DEF.as_bytes()));
+        udic_wire.join("|"), dict_pos.iter().map(|p| hex_pos(p)).collect::<Vec<_>>().join(";"), hex_pos(&dict_pos[NUMERAL]), plen, hex(CHAR_DEF.as_bytes()));
 
     let viol = rviolations(spec, &dict_pos);
     run.bump(&format!("tag:{}", spec.tag.split(':').take(2).collect::<Vec<_>>().join(":")));
@@ -1382,6 +1778,9 @@ fn run_rload(run: &mut Run, ctx: &Ctx, idx: usize, rng: &mut Rng, spec: &RSpec) 
     for p in &spec.input { run.bump(match p { RIn::Yomi { .. } => "plugin:ignore-yomigana", RIn::Prolonged { .. } => "plugin:prolonged-sound-mark" }); }
     for p in &spec.path { run.bump(match p { RPath::Katakana { .. } => "plugin:join-katakana", RPath::Numeric { .. } => "plugin:join-numeric" }); }
     if !spec.users.is_empty() { run.bump("user-dictionary:compiled-against-other-matrix"); }
+    run.bump(&format!("user-dictionaries:{}", match spec.users.len() { 0 => "0", 1 => "1", 2..=13 => "2-13", 14 => "14", _ => "15+" }));
+    for p in &spec.oov { if let ROov::Simple { pos, .. } | ROov::Regex { pos, .. } = p { if let Some(v) = pos.strs() { run.bump(&format!("pos-arity:{}", v.len())); } } }
+    for p in &spec.path { if let RPath::Katakana { pos, .. } = p { if let Some(v) = pos.strs() { run.bump(&format!("pos-arity:{}", v.len())); } } }
     for x in &viol { run.bump(&format!("requirement-violated:{}", x.key())); }
 
     let res = catch(|| -> Result<JapaneseDictionary, SudachiError> {
@@ -1390,7 +1789,7 @@ fn run_rload(run: &mut Run, ctx: &Ctx, idx: usize, rng: &mut Rng, spec: &RSpec) 
         for u in &users { data.add_user(Storage::Owned(u.clone())); }
         JapaneseDictionary::from_cfg_storage(&cfg, data)
     });
-    let nontrivial = !viol.is_empty() || spec.oov.len() + spec.inh.len() + spec.input.len() + spec.path.len() + spec.users.len() > 1;
+    let nontrivial = !viol.is_empty() || spec.oov.len() + spec.inh.len() + spec.inh_raw.len() + spec.input.len() + spec.path.len() + spec.users.len() > 1;
     match res {
         Err(p) => {
             run.bump("outcome:PANIC");
@@ -1409,7 +1808,7 @@ fn run_rload(run: &mut Run, ctx: &Ctx, idx: usize, rng: &mut Rng, spec: &RSpec) 
         Ok(Ok(dic)) => {
             run.bump("outcome:ok");
             let pl = &dic.grammar().pos_list;
-            let newpos: Vec<String> = pl.iter().skip(dict_pos.len()).map(|p| hex_pos(p)).collect();
+            let newpos: Vec<String> = pl.iter().map(|p| hex_pos(p)).collect();
             let ib = catch(|| { let mut ib = InputBuffer::from(PROBE); ib.build(dic.grammar()).expect("build"); ib });
             let mut prov_out = vec![];
             if let Ok(ib) = &ib {
@@ -1450,8 +1849,10 @@ fn run_rload(run: &mut Run, ctx: &Ctx, idx: usize, rng: &mut Rng, spec: &RSpec) 
             let cm = dic.grammar().conn_matrix();
             let dump = catch(|| { let mut v = vec![]; for r in 0..nr { for l in 0..nl { v.push(cm.cost(l as u16, r as u16) as i64); } } v });
             let cells = dump.clone().unwrap_or_default();
-            let ans = format!("ok npos={} new={} prov={} conn={}", pl.len(), newpos.join(";"), prov_out.join(";"), join(cells.iter(), ","));
+            let ans = format!("ok npos={} all={} prov={} conn={}", pl.len(), newpos.join(";"), prov_out.join(";"), join(cells.iter(), ","));
             run.case(idx, "rload", &payload, &ans, nontrivial);
+            pos_list_oracle(run, idx, pl, &dict_pos, &spec.users.iter().map(|u| u.own_pos.clone()).collect::<Vec<_>>(), &spec.tag);
+            word_pos_oracle(run, idx, &dic, &declared, &spec.tag);
             // ---- oracle: accepted although a requirement is violated (an ill-typed or out-of-range value)
             for x in &viol {
                 if x.class == "overflow" { continue; } // a usize that is too large to be added to an offset: judged by the analysis below
@@ -1461,13 +1862,109 @@ fn run_rload(run: &mut Run, ctx: &Ctx, idx: usize, rng: &mut Rng, spec: &RSpec) 
                 run.fail(idx, "c20:matrix:dump", "matrix of the loaded dictionary cannot be read back in its own range");
             } else {
                 let mut want: Vec<i64> = spec.matrix.cells.iter().map(|&c| c as i64).collect();
-                for pairs in &spec.inh { for (a, b) in pairs { if *a >= 0 && (*a as usize) < nl && *b >= 0 && (*b as usize) < nr { want[*b as usize * nl + *a as usize] = 32767; } } }
+                for j in spec.inh_all() { for (a, b) in j.pairs().unwrap_or_default() { if a >= 0 && (a as usize) < nl && b >= 0 && (b as usize) < nr { want[b as usize * nl + a as usize] = 32767; } } }
                 if want != cells { run.fail(idx, "c20:wrong-cell:in-range-pairs", &format!("matrix after load differs from 'exactly the inhibited cells are 32767' [{}]", spec.tag)); }
             }
             // ---- oracle: analysis (texts for the providers, the input-text / path-rewrite plugins and every user word)
             let mut extra = vec!["漢(かな)字あーー〜〜い".to_string(), "アイウあ12三ア".to_string()];
             extra.extend(user_texts.iter().cloned());
             analysis_oracle(run, idx, rng, &dic, nl, nr, &viol, &spec.tag, &extra);
+        }
+    }
+}
+
+// ---------------------------------------------------------------------------------------------
+// gparse: the reader of the grammar section (Grammar::parse + ConnectionMatrix::from_offset_size + CowArray::from_bytes):
+// where num_left / num_right, the cells and the POS list come from
+
+fn put_str(buf: &mut Vec<u8>, s: &str) {
+    let units: Vec<u16> = s.encode_utf16().collect();
+    if units.len() < 127 { buf.push(units.len() as u8); } else { buf.push(((units.len() >> 8) as u8) | 0x80); buf.push((units.len() & 0xff) as u8); }
+    for u in units { buf.extend(&u.to_le_bytes()); }
+}
+
+/// header numbers x how many bytes follow the header
+fn gparse_spec(k: Option<usize>, rng: &mut Rng) -> (usize, Vec<Vec<String>>, i16, i16, usize, String) {
+    const HDR: &[(i16, i16)] = &[(0, 0), (1, 1), (2, 3), (3, 2), (1, 0), (0, 1), (0, -1), (-1, 0), (-1, -1), (-1, 1), (1, -1), (-32768, -32768), (-32768, 2), (2, -32768),
+        (32767, 1), (1, 32767), (32767, 32767), (181, 182), (255, 256), (256, 255), (127, 128), (-2, 3), (3, -2), (0, 32767), (-32768, 0)];
+    let (l, r, hv) = match k {
+        Some(k) => { let (l, r) = HDR[k / 7 % HDR.len()]; (l, r, k % 7) }
+        None => {
+            let pick = |rng: &mut Rng| -> i16 { if rng.chance(1, 8) { *rng.pick(&[-1i16, -2, -32768, 32767, 0]) } else { rng.below(7) as i16 } };
+            (pick(rng), pick(rng), rng.below(7))
+        }
+    };
+    let size: usize = if l >= 0 && r >= 0 { l as usize * r as usize } else { rng.below(12) };
+    let size = if size > 70_000 { 9 } else { size };
+    let have = match hv { 0 => 0, 1 => size.saturating_sub(1), 2 => size, 3 => size + 1, 4 => (2 * size).saturating_sub(1), 5 => 2 * size, _ => 2 * size + 3 };
+    let off = match k { Some(k) => [0usize, 1, 7][k % 3], None => rng.below(9) };
+    let npos = match k { Some(k) => k % 4, None => rng.below(4) };
+    let lens = [0usize, 1, 2, 126, 127, 128, 200];
+    let chars = ['a', 'é', '名', '👍', '*'];
+    let mut pos = vec![];
+    for i in 0..npos {
+        let mut p = vec![];
+        for j in 0..6 {
+            let n = match k { Some(k) => lens[(k + i + j) % lens.len()], None => *rng.pick(&lens) };
+            p.push((0..n).map(|x| chars[(x + i + j) % chars.len()]).collect::<String>());
+        }
+        pos.push(p);
+    }
+    let tag = format!("{}:{}x{}:{}", if k.is_some() { "gdirected" } else { "grandom" }, l, r, ["none", "size-1", "size", "size+1", "2size-1", "2size", "2size+3"][hv]);
+    (off, pos, l, r, have, tag)
+}
+
+pub const N_GDIRECTED: usize = 25 * 7 + 4;
+
+fn run_gparse(run: &mut Run, idx: usize, rng: &mut Rng, k: Option<usize>) {
+    use sudachi::dic::grammar::Grammar;
+    let (off, pos, l, r, have, tag) = gparse_spec(k.filter(|k| *k < 25 * 7), rng);
+    let mut buf: Vec<u8> = (0..off).map(|i| (i * 37 + 11) as u8).collect();
+    // the last four directed cases: the buffer ends inside the POS list / inside the header, the count is larger than the list
+    let cut = k.and_then(|k| k.checked_sub(25 * 7));
+    let declared = pos.len() + if cut == Some(3) { 2 } else { 0 };
+    buf.extend(&(declared as u16).to_le_bytes());
+    for p in &pos { for c in p { put_str(&mut buf, c); } }
+    let hdr_at = buf.len();
+    buf.extend(&l.to_le_bytes());
+    buf.extend(&r.to_le_bytes());
+    let cells: Vec<i16> = (0..(have + 1) / 2).map(|i| ((i as i64 * 7919 + 13) % 65536 - 32768) as i16).collect();
+    let mut cell_bytes: Vec<u8> = cells.iter().flat_map(|c| c.to_le_bytes()).collect();
+    cell_bytes.truncate(have);
+    buf.extend(&cell_bytes);
+    match cut { Some(0) => buf.truncate(hdr_at + 3), Some(1) => buf.truncate(hdr_at + 1), Some(2) => buf.truncate(hdr_at.saturating_sub(1).max(off)), _ => {} }
+    let tag = match cut { Some(c) => format!("gdirected:cut:{}", c), None => tag };
+    let payload = format!("hdr={} dbg={} off={} buf={}", gvariant_flag(), if cfg!(debug_assertions) { 1 } else { 0 }, off, hex(&buf));
+    run.bump(&format!("tag:{}", tag.split(':').next().unwrap_or("")));
+    run.bump(&format!("gparse:header:{}", if l < 0 || r < 0 { "negative" } else if l == 0 || r == 0 { "zero" } else if l.max(r) == 32767 { "i16-max" } else { "positive" }));
+    run.bump(&format!("gparse:bytes-after-header:{}", tag.rsplit(':').next().unwrap_or("")));
+    let res = catch(|| Grammar::parse(&buf, off).map(|g| {
+        let cm = g.conn_matrix();
+        let (nl, nr) = (cm.num_left(), cm.num_right());
+        let probes = nl > 0 && nr > 0 && nl <= 65536 && nr <= 65536;
+        let first = if probes { cm.cost(0, 0).to_string() } else { "-".into() };
+        let last = if probes { cm.cost((nl - 1) as u16, (nr - 1) as u16).to_string() } else { "-".into() };
+        let pl: Vec<String> = g.pos_list.iter().map(|p| p.iter().map(|c| c.chars().count().to_string()).collect::<Vec<_>>().join(",")).collect();
+        (g.pos_list.len(), nl, nr, g.storage_size, first, last, pl.join(";"), g.pos_list.clone())
+    }));
+    match res {
+        Err(_) => { run.bump("gparse:PANIC"); run.bump(&format!("gparse:PANIC:{}", if l < 0 || r < 0 { "negative-header" } else { "matrix-cut-short" })); run.case(idx, "gparse", &payload, "PANIC", true); }
+        Ok(Err(e)) => { let kd = err_kind(&e); run.bump(&format!("gparse:err:{}", kd)); run.case(idx, "gparse", &payload, &format!("err:{}", kd), true); }
+        Ok(Ok((npos, nl, nr, storage, first, last, pl, plist))) => {
+            run.bump("gparse:ok");
+            run.case(idx, "gparse", &payload, &format!("ok npos={} nl={} nr={} storage={} first={} last={} pos={}", npos, nl, nr, storage, first, last, pl), true);
+            // oracle (independent of the model): what was parsed is what was written
+            if l >= 0 && r >= 0 {
+                let want_first = cells.first().map(|c| c.to_string()).unwrap_or("-".into());
+                let li = (l as usize * r as usize).wrapping_sub(1);
+                let want_last = cells.get(li).map(|c| c.to_string()).unwrap_or("-".into());
+                if nl != l as usize || nr != r as usize || nl > 32767 || nr > 32767 || (l > 0 && r > 0 && (first != want_first || last != want_last))
+                    || plist != pos || storage != buf.len() - off - (have - 2 * nl * nr) {
+                    run.fail(idx, "c20:gparse:dims", &format!("Grammar::parse of a {}x{} header gives {}x{}, cells {}..{} (written {}..{}), {} POS (written {}), storage {} [{}]", l, r, nl, nr, first, last, want_first, want_last, npos, pos.len(), storage, tag));
+                }
+            } else {
+                run.bump("gparse:negative-header-accepted");
+            }
         }
     }
 }
@@ -1479,8 +1976,8 @@ and both members of an inhibit pair on 3x3, 1x1, 2x4, 4x2 matrices; POS existing
 inhibit plugins over 1..6 x 1..6 matrices with 0/4/15 % boundary values, optional user dictionaries. Every accepted configuration tokenises three texts that \
 make every provider fire. lat: real Lattice + ConnectionMatrix over random candidate nodes (ids in and out of range). non-trivial = a requirement is violated \
 or more than one plugin is configured; distinct by payload".into();
-    let ctx = Ctx { wd: Workdir::new("c20"), variant: variant_flags(), variant2: rvariant_flags() };
-    run.extra.insert("variant".into(), serde_json::json!(format!("{}+{}", ctx.variant, ctx.variant2)));
+    let ctx = Ctx { wd: Workdir::new("c20"), variant: variant_flags(), variant2: rvariant_flags(), yomi: Default::default() };
+    run.extra.insert("variant".into(), serde_json::json!(format!("{}+{}+{}", ctx.variant, ctx.variant2, gvariant_flag())));
     let n = run.opts.count;
     // one case in five beyond the directed block is a lattice case
     for idx in 0..n {
@@ -1489,9 +1986,13 @@ or more than one plugin is configured; distinct by payload".into();
         if idx < N_DIRECTED {
             if let Some(spec) = directed(idx, &mut rng) { run_load(run, &ctx, idx, &mut rng, &spec); }
         } else if idx < N_DIRECTED + N_RDIRECTED {
-            if let Some(spec) = rdirected(idx - N_DIRECTED, &mut rng) { run_rload(run, &ctx, idx, &mut rng, &spec); }
+            if let Some(spec) = rdirected(idx - N_DIRECTED, &mut rng, &ctx) { run_rload(run, &ctx, idx, &mut rng, &spec); }
+        } else if idx < N_DIRECTED + N_RDIRECTED + N_GDIRECTED {
+            run_gparse(run, idx, &mut rng, Some(idx - N_DIRECTED - N_RDIRECTED));
+        } else if idx % 20 == 9 {
+            run_gparse(run, idx, &mut rng, None);
         } else if idx % 5 == 1 {
-            let spec = random_rspec(&mut rng);
+            let spec = random_rspec(&mut rng, &ctx);
             run_rload(run, &ctx, idx, &mut rng, &spec);
         } else if idx % 5 == 4 {
             run_lat(run, idx, &mut rng);
